@@ -339,6 +339,7 @@ def wrap_exact(ctx: Ctx, chk) -> None:
     chk.rule(rule, "for every version and every command the top-level handler chain contains the version-query wrapper exactly once; the query is sent from a `finally` covering the wrapped call (also after a failing handler, and after a handler that itself learned the version)")
     I = ctx.I
     w = I.wrapper_of(ctx.func(VWRAP))
+    w_i = ctx.inl(w, lambda h: not h.name.startswith("handle_"))  # the query may be sent by a private helper coroutine
     cells = tables.handler_cells(ctx)
     n = 0
     for V in ctx.versions:
@@ -393,7 +394,7 @@ def wrap_exact(ctx: Ctx, chk) -> None:
                     chk.refute(rule, key, f"{f.qualname} runs outside the version-query wrapper and can refuse a message by itself (`{norm(early.ast)[:60]}`) before the wrapped handler - and with it the wrapper's try/finally - is entered: while the version is unknown such a message is not followed by a version query", ctx.loc(fi, early.ast))
     # finally discipline
     chk.instance(rule)
-    tries = [t for t in ctx.own_nodes(w) if isinstance(t, ast.Try)]
+    tries = [t for t in ctx.own_nodes(w_i) if isinstance(t, ast.Try)]
     key = f"{w.fq}::finally"
     ok = False
     for t in tries:
@@ -411,7 +412,7 @@ def wrap_cond(ctx: Ctx, chk) -> None:
     rule = "WRAP-COND"
     chk.rule(rule, "truth table of the wrapper's condition over version in {None, known} x command in {internal, other} x type in {every internal type number of any protocol version, one unused number} (the condition may live in a predicate helper, which is interpreted): a query is sent iff the version is unknown and the message is not a log or gateway-ready message")
     I = ctx.I
-    w = I.wrapper_of(ctx.func(VWRAP))
+    w = ctx.inl(I.wrapper_of(ctx.func(VWRAP)), lambda h: not h.name.startswith("handle_"))  # the query may be sent by a private helper coroutine
     sends = [x for x in ctx.own_nodes(w) if isinstance(x, ast.Call) and norm(x.func) == "gateway.send"]
     if len(sends) != 1:
         raise AnalysisError("WRAP-COND: expected exactly one send in the version wrapper")
